@@ -461,22 +461,24 @@ Definition m_admission (es : list pentry) : bool :=
    input: label 118 (stream a, offset b, panicked d) follows it, labels 119 (stream b, stored offset c) report the offsets the
    provider holds at the end.  The forwarded commit is the input commit just seen on that stream; Model/StreamOffsets.v must
    accept it (the stored offset moves forward: no "offset corruption") and the real code must not have panicked; the stored
-   offsets are the model's, for every stream the model holds one for *)
-Fixpoint m_filec_go (es : list pentry) (t : fcst) (last38 : list (Z * Z)) (n38 n118 : Z) (reported : list Z) : bool :=
+   offsets are the model's, for every stream the model holds one for.  An early-stop case takes the trace while processors may
+   still be committing: the forwarder is closed when the stored offsets are read (one critical section with the labels 119),
+   so input commits after that have no label 118 *)
+Fixpoint m_filec_go (early : bool) (es : list pentry) (t : fcst) (last38 : list (Z * Z)) (n38 n118 : Z) (reported : list Z) : bool :=
   match es with
-  | [] => (n38 =? n118) && forallb (fun kv : Z * Z => mem_z (fst kv) reported) t
+  | [] => (if early then n118 <=? n38 else n38 =? n118) && forallb (fun kv : Z * Z => mem_z (fst kv) reported) t
   | e :: r =>
-      if is_k 4 38 e then m_filec_go r t ((pa e, pc e) :: last38) (n38 + 1) n118 reported
+      if is_k 4 38 e then m_filec_go early r t ((pa e, pc e) :: last38) (n38 + 1) n118 reported
       else if is_k 4 118 e then
         match last_of (pa e) last38, fc_commit t (pa e) (pb e) with
-        | Some off, Some t' => (off =? pb e) && (pd e =? 0) && m_filec_go r t' last38 n38 (n118 + 1) reported
+        | Some off, Some t' => (off =? pb e) && (pd e =? 0) && m_filec_go early r t' last38 n38 (n118 + 1) reported
         | _, _ => false
         end
-      else if is_k 4 119 e then (0 <=? pb e) && (fc_get t (pb e) =? pc e) && m_filec_go r t last38 n38 n118 (pb e :: reported)
-      else m_filec_go r t last38 n38 n118 reported
+      else if is_k 4 119 e then (0 <=? pb e) && (fc_get t (pb e) =? pc e) && m_filec_go early r t last38 n38 n118 (pb e :: reported)
+      else m_filec_go early r t last38 n38 n118 reported
   end.
 Definition m_filec (c : pcfg) (es : list pentry) : bool :=
-  if p_filec c then m_filec_go es [] [] 0 0 [] else no_kind 118 es && no_kind 119 es.
+  if p_filec c then m_filec_go (p_early c) es [] [] 0 0 [] else no_kind 118 es && no_kind 119 es.
 
 (* ---- C01: commit implies acked, and the frontier ------------------------------------------------ *)
 (* at every input commit of (s, seq): the event had been handed to the output (ProcOut) and, when the
